@@ -290,6 +290,10 @@ fn sets(nreq: usize, three: bool) -> Vec<SetSpec> {
         SetSpec { name: "path-segmentation([a,b]-vs-[a/b])", transfers: vec![download_script(1, &ab, 1, nreq, "GET [a,b]"), download_script(1, &a_slash_b, 1, nreq, "GET [a/b]")] },
         SetSpec { name: "path-prefix([a]-vs-[a,b])", transfers: vec![upload_script(1, 3, &a, 0, nreq, 0, "PUT [a]"), upload_script(1, 3, &ab, 0, nreq, 0, "PUT [a,b]")] },
         SetSpec { name: "empty-path-vs-[x]", transfers: vec![download_script(1, &none, 0, nreq, "GET []"), download_script(1, &x, 0, nreq, "GET [x]")] },
+        SetSpec { name: "root-vs-one-empty-segment", transfers: vec![download_script(1, &none, 0, nreq, "GET []"), download_script(1, &[b""], 0, nreq, "GET [\"\"]")] },
+        SetSpec { name: "leading-empty-segment([x]-vs-[,x])", transfers: vec![upload_script(1, 3, &x, 0, nreq, 0, "PUT [x]"), upload_script(1, 3, &[b"", b"x"], 0, nreq, 0, "PUT [\"\",x]")] },
+        SetSpec { name: "trailing-empty-segment([x]-vs-[x,])", transfers: vec![download_script(1, &x, 1, nreq, "GET [x]"), download_script(1, &[b"x", b""], 1, nreq, "GET [x,\"\"]")] },
+        SetSpec { name: "case-differs([x]-vs-[X])", transfers: vec![upload_script(1, 3, &x, 0, nreq, 0, "PUT [x]"), upload_script(1, 3, &[b"X"], 0, nreq, 0, "PUT [X]")] },
         SetSpec { name: "endpoint-differs(upload-then-blockwise-reply)", transfers: vec![upload_script(1, 2, &r, 0, nreq - fetch, fetch, "ep1 POST r"), upload_script(2, 2, &r, 0, nreq - fetch, fetch, "ep2 POST r")] },
     ];
     if three {
